@@ -345,25 +345,30 @@ vf_ini_line_equiv(const ini_line_t *a, const ini_line_t *b) {
 /* ------------------------------------------------- symbolic store builder ---- */
 /*
  * One line record from symbolic ingredients.  kind: 0..4 = line type, 5 = NULL entry.
- * The record is an exact-size heap object (header + cap bytes), cap = data_size + pad,
- * so one byte past the capacity is a failed pointer obligation; data_allocated_size is
- * any value <= cap (it is stale after a realloc that did not move, see ini_val_set).
+ * The record is ONE heap object: header followed by the data area, as ini_line_alloc__int()
+ * makes it.  Its capacity is the constant VF_INI_CAP (symbolic-size heap objects make every
+ * field access a byte operation on an unbounded array: measured > 300 s for one lookup,
+ * 35 s with a constant size); data_size and data_allocated_size are symbolic <= VF_INI_CAP
+ * (data_allocated_size is any value: it is stale after a realloc that did not move the
+ * record, see ini_val_set).  The data bytes are the unconstrained initial content of the
+ * heap object; they are recorded as input `<tag>_raw` for the native replay.
  */
 #define VF_INI_KIND_NULL	5
 #define VF_INI_RAW		(2 * VF_INI_FLD + 2)
+#define VF_INI_CAP		(VF_INI_RAW + INI_LINE_ALLOC_PADDING)
+struct vf_ini_raw { uint8_t b[VF_INI_RAW]; };
 
 #ifndef VF_REPLAY
 void *malloc(__CPROVER_size_t);
 #endif
 
 static inline ini_line_p
-vf_ini_mk_line(uint8_t kind, size_t nsz, size_t vsz, size_t pad, size_t das,
-    const uint8_t *raw) {
+vf_ini_mk_line(uint8_t kind, size_t nsz, size_t vsz, size_t das, const uint8_t *raw) {
 	ini_line_p l;
-	size_t dsz, i;
+	size_t dsz;
 
 	VF_ASSUME(kind <= VF_INI_KIND_NULL);
-	VF_ASSUME(nsz <= VF_INI_FLD && vsz <= VF_INI_FLD && pad <= INI_LINE_ALLOC_PADDING);
+	VF_ASSUME(nsz <= VF_INI_FLD && vsz <= VF_INI_FLD && das <= VF_INI_CAP);
 	if (kind == VF_INI_KIND_NULL)
 		return (NULL);
 	switch (kind) {
@@ -372,8 +377,7 @@ vf_ini_mk_line(uint8_t kind, size_t nsz, size_t vsz, size_t pad, size_t das,
 	case INI_LINE_TYPE_VALUE:	dsz = nsz + 1 + vsz; break;
 	default:			dsz = nsz; break;
 	}
-	VF_ASSUME(das <= dsz + pad);
-	l = (ini_line_p)malloc(sizeof(ini_line_t) + dsz + pad);
+	l = (ini_line_p)malloc(sizeof(ini_line_t) + VF_INI_CAP);
 	VF_ASSUME(l != NULL);
 	l->data = (uint8_t *)(l + 1);
 	l->data_size = dsz;
@@ -383,8 +387,11 @@ vf_ini_mk_line(uint8_t kind, size_t nsz, size_t vsz, size_t pad, size_t das,
 	l->name_size = 0;
 	l->val = NULL;
 	l->val_size = 0;
-	for (i = 0; i < dsz; i ++)
-		l->data[i] = raw[i];
+#ifdef VF_REPLAY
+	memcpy(l->data, raw, VF_INI_RAW);
+#else
+	(void)raw;
+#endif
 	if (kind == INI_LINE_TYPE_SECTION) {
 		l->data[0] = '[';
 		l->data[1 + nsz] = ']';
@@ -399,6 +406,58 @@ vf_ini_mk_line(uint8_t kind, size_t nsz, size_t vsz, size_t pad, size_t das,
 	}
 	return (l);
 }
+
+#ifndef VF_REPLAY
+#define VF_INI_SYM_LINE(dst, tag)						\
+	do {									\
+		VF_NONDET(uint8_t, tag##_kind);					\
+		VF_NONDET(uint8_t, tag##_nsz);					\
+		VF_NONDET(uint8_t, tag##_vsz);					\
+		VF_NONDET(uint8_t, tag##_das);					\
+		(dst) = vf_ini_mk_line(tag##_kind, tag##_nsz, tag##_vsz,	\
+		    tag##_das, NULL);						\
+		if ((dst) != NULL)						\
+			__CPROVER_input(#tag "_raw",				\
+			    *(struct vf_ini_raw *)((dst)->data));		\
+	} while (0)
+#else
+#define VF_INI_SYM_LINE(dst, tag)						\
+	do {									\
+		VF_NONDET(uint8_t, tag##_kind);					\
+		VF_NONDET(uint8_t, tag##_nsz);					\
+		VF_NONDET(uint8_t, tag##_vsz);					\
+		VF_NONDET(uint8_t, tag##_das);					\
+		VF_NONDET_BYTES(tag##_raw, VF_INI_RAW);				\
+		(dst) = vf_ini_mk_line(tag##_kind, tag##_nsz, tag##_vsz,	\
+		    tag##_das, tag##_raw.b);					\
+	} while (0)
+#endif
+
+/* store with `count` <= VF_INI_MAXL symbolic lines; the pointer table is a heap object of
+ * VF_INI_MAXL + 1 entries of which `allocated` (count <= allocated) are claimed;
+ * allocated == 0: no table yet (a fresh ini_create() store) */
+#define VF_INI_SYM_STORE(ini)							\
+	do {									\
+		VF_NONDET(uint8_t, ini_count);					\
+		VF_NONDET(uint8_t, ini_allocated);				\
+		VF_ASSUME(ini_count <= VF_INI_MAXL);				\
+		VF_ASSUME(ini_count <= ini_allocated &&				\
+		    ini_allocated <= VF_INI_MAXL + 1);				\
+		(ini) = (ini_p)malloc(sizeof(ini_t));				\
+		VF_ASSUME((ini) != NULL);					\
+		(ini)->lines_count = ini_count;					\
+		(ini)->lines_allocated = ini_allocated;				\
+		(ini)->lines = NULL;						\
+		if (ini_allocated != 0) {					\
+			(ini)->lines = (ini_line_p *)malloc((VF_INI_MAXL + 1) *	\
+			    sizeof(ini_line_p));				\
+			VF_ASSUME((ini)->lines != NULL);			\
+		}								\
+		if (ini_count > 0) VF_INI_SYM_LINE((ini)->lines[0], l0);	\
+		if (ini_count > 1) VF_INI_SYM_LINE((ini)->lines[1], l1);	\
+		if (ini_count > 2) VF_INI_SYM_LINE((ini)->lines[2], l2);	\
+		if (ini_count > 3) VF_INI_SYM_LINE((ini)->lines[3], l3);	\
+	} while (0)
 
 /* harness-owned optional out-parameter: NULL or an exact-size heap object */
 #define VF_OWN_OPT(T, name)							\
@@ -419,42 +478,5 @@ vf_ini_mk_line(uint8_t kind, size_t nsz, size_t vsz, size_t pad, size_t das,
 		VF_ASSUME(ptr != NULL);						\
 		memcpy(ptr, tag##_bytes.b, len);				\
 	}
-
-#define VF_INI_SYM_LINE(dst, tag)						\
-	do {									\
-		VF_NONDET(uint8_t, tag##_kind);					\
-		VF_NONDET(uint8_t, tag##_nsz);					\
-		VF_NONDET(uint8_t, tag##_vsz);					\
-		VF_NONDET(uint8_t, tag##_pad);					\
-		VF_NONDET(uint8_t, tag##_das);					\
-		VF_NONDET_BYTES(tag##_raw, VF_INI_RAW);				\
-		(dst) = vf_ini_mk_line(tag##_kind, tag##_nsz, tag##_vsz,	\
-		    tag##_pad, tag##_das, tag##_raw.b);				\
-	} while (0)
-
-/* store with `count` <= VF_INI_MAXL symbolic lines; the pointer table has `allocated`
- * entries (count <= allocated <= VF_INI_MAXL + 1), allocated == 0: no table yet */
-#define VF_INI_SYM_STORE(ini)							\
-	do {									\
-		VF_NONDET(uint8_t, ini_count);					\
-		VF_NONDET(uint8_t, ini_allocated);				\
-		VF_ASSUME(ini_count <= VF_INI_MAXL);				\
-		VF_ASSUME(ini_count <= ini_allocated &&				\
-		    ini_allocated <= VF_INI_MAXL + 1);				\
-		(ini) = (ini_p)malloc(sizeof(ini_t));				\
-		VF_ASSUME((ini) != NULL);					\
-		(ini)->lines_count = ini_count;					\
-		(ini)->lines_allocated = ini_allocated;				\
-		(ini)->lines = NULL;						\
-		if (ini_allocated != 0) {					\
-			(ini)->lines = (ini_line_p *)malloc(ini_allocated *	\
-			    sizeof(ini_line_p));				\
-			VF_ASSUME((ini)->lines != NULL);			\
-		}								\
-		if (ini_count > 0) VF_INI_SYM_LINE((ini)->lines[0], l0);	\
-		if (ini_count > 1) VF_INI_SYM_LINE((ini)->lines[1], l1);	\
-		if (ini_count > 2) VF_INI_SYM_LINE((ini)->lines[2], l2);	\
-		if (ini_count > 3) VF_INI_SYM_LINE((ini)->lines[3], l3);	\
-	} while (0)
 
 #endif /* VF_SPECS_INI_SPEC_H */
